@@ -1,6 +1,10 @@
 package c03
 
-import "wzverif/internal/kit"
+import (
+	"strings"
+
+	"wzverif/internal/kit"
+)
 
 // One finding per loss class (ledger D07): the clause id names the element path, the trigger is the
 // call site that can put such an element into the document. Only ids listed `open:` in
@@ -33,5 +37,57 @@ var findings = func() []kit.Finding[Case] {
 			Trigger: func(c Case, f kit.Failure) bool { return opTouches(c, id) },
 		})
 	}
+	out = append(out, kit.Finding[Case]{
+		ID: "KF-C03-text-without-preserve", Clause: "C03.RT6/builder-without-preserve",
+		Desc: "cell texts (TableConfig.Data, SetCellText, SetCellFormattedText, AddCellFormattedText, row/column data), list items (AddListItem and its wrappers) " +
+			"and the TOC title/entries are written as w:t without xml:space=\"preserve\": their leading/trailing white space is lost for every consumer but the library's own reader",
+		Trigger: func(c Case, f kit.Failure) bool { return len(unpreservingTexts(c)) > 0 },
+	})
 	return out
 }()
+
+// unpreservingKinds: op kinds whose texts reach an entry point that builds the run as Text{Content: text} without
+// Space (S = the op's S strings, G = its grid)
+var unpreservingKinds = map[string]string{"table": "G", "nested": "G", "nestedh": "G", "createtable": "G", "celltext": "S", "cellftext": "S", "celladdtext": "S",
+	"insrow": "S", "approw": "S", "inscol": "S", "appcol": "S", "listitem": "S", "bullet": "S", "numbered": "S", "multilist": "S", "toc": "S"}
+
+func edgeWS(s string) bool { return s != strings.Trim(s, " \t\r\n") }
+
+// unpreservingTexts: the texts with leading or trailing white space that the case hands to those entry points. The
+// table of contents repeats the heading texts, so with a toc op in the history the heading texts count too.
+func unpreservingTexts(c Case) map[string]bool {
+	out := map[string]bool{}
+	hasTOC := false
+	for _, o := range c.Ops {
+		if o.K == "toc" {
+			hasTOC = true
+			out["\x00toc"] = true // the generated entries separate title and page number by a tab in a w:t of its own
+		}
+	}
+	for _, o := range c.Ops {
+		switch {
+		case o.K == "bigcelltext":
+			if s := bigText(opI(o, 3), opI(o, 4), opI(o, 5)); edgeWS(s) {
+				out[s] = true
+			}
+		case unpreservingKinds[o.K] == "S" || (hasTOC && (o.K == "heading" || o.K == "headingbm" || o.K == "headingbm2")):
+			for i, s := range o.S {
+				if (o.K == "headingbm" || o.K == "headingbm2") && i > 0 {
+					break
+				}
+				if edgeWS(s) {
+					out[s] = true
+				}
+			}
+		case unpreservingKinds[o.K] == "G":
+			for _, r := range o.Grid {
+				for _, s := range r {
+					if edgeWS(s) {
+						out[s] = true
+					}
+				}
+			}
+		}
+	}
+	return out
+}
